@@ -28,7 +28,7 @@ TRUSTED_BASE = [
     "(Model/Addr.v sockaddr_in, sockaddr_in6) - compared with a real Linux kernel in a namespace in the thorough tier",
     "modelled, not verified: CPython 3.12 struct ('!2xH4s', '!2xH4x16s', '=HH'), bytes %-formatting, int(), str/bytes split/strip/startswith, "
     "ipaddress.IPv4Address/IPv6Address.__str__ (3.12: no dotted tail for ::ffff:a.b.c.d; 3.13 prints one), glibc inet_ntop/inet_pton "
-    "(dotted tail for ::a.b.c.d / ::ffff:a.b.c.d), socket.htons, BytesIO.readline(128) - all differential-tested on every run",
+    "(dotted tail for ::a.b.c.d / ::ffff:a.b.c.d), socket.htons, BufferedReader/BytesIO.readline([limit]) - all differential-tested on every run",
     "big-endian hosts are simulated by replacing tproxy's struct '=' by '>' and htons by the identity (no such host available)",
     "pf: DIOCNATLOOK is replaced by a fake ioctl on the FreeBSD structure layout; BSD inet_ntop differs from glibc for ::0.0.x.y (not validated)",
 ]
@@ -36,6 +36,8 @@ ASSUMPTIONS = [
     "getsockname() of an accepted socket names a local address (so the pf failure fallback trips the self-address guard)",
     "ipfw / windivert recovery paths and scoped IPv6 addresses (%iface) are not modelled",
     "PEP 515 underscores accepted by int() are not modelled (never produced by the printers)",
+    "the helper's line reader is readline(limit) with limit regenerated from /repo (Gen/Consts.fw_readline_limit); the pf theorems "
+    "hold for no limit or any limit >= 128 (c05_pf_reader_of_code re-checks this against the current code on every run)",
 ]
 
 AF_INET, AF_INET6 = 2, 10
